@@ -18,8 +18,9 @@ import (
 	"github.com/tikv/client-go/v2/tikvrpc"
 )
 
-// the one handler whose glue expectation describes a reported defect instead of the intended behaviour
-const pessRollbackEncodedBounds = true
+// false since 390bcd2 (handleKvPessimisticRollback decodes the region bounds like the other range handlers): the scan
+// form covers exactly the addressed region. true describes the old double-encoding defect (F39).
+const pessRollbackEncodedBounds = false
 
 const splitKey = 3 // a split cluster has the regions [-inf, k3) and [k3, +inf)
 
@@ -183,9 +184,8 @@ func (r *rpcSide) effective(c string) (eff string, wantPanic bool) {
 			return c, !allIn(ks)
 		}
 		lo, hi = r.bounds() // scan form: the whole region ...
-		// ... AS THE CODE IS (reported defect): handleKvPessimisticRollback hands the ENCODED region bounds to the store,
-		// which encodes them again; the doubly encoded bound of k3 sorts between the rows of k3 and k4, so the left
-		// region's scan includes k3 and the right region's scan starts after k3. Intended: (lo, hi) unchanged.
+		// (before 390bcd2 handleKvPessimisticRollback handed the ENCODED region bounds to the store, which encoded them again; the doubly encoded bound of k3 sorts between the rows of k3 and k4, so the left
+		// region's scan includes k3 and the right region's scan started after k3)
 		if pessRollbackEncodedBounds {
 			if hi != 0 {
 				hi++
